@@ -35,3 +35,8 @@ claim("C11", "invariant monitor: Walk with recording and pruning visitors vs a r
       "For every generated program the real Walk runs under panic capture with a recording visitor; the set, multiplicity and order of visited nodes is compared with a reflection walk over exported fields (function names and join kinds excepted), and for each node a pruning run must skip exactly its descendants.",
       "Trusts the reflection enumeration (pqlref/reach.go); node identity is pointer identity.",
       "DESIGN.md section 5, C11")
+
+claim("C01", "reference-model monitor: expression at each position of the real compiler's SQL, parsed by an independent SQL parser and evaluated on enumerated rows, vs a reference evaluator of the PQL tree; exhaustive small trees + seeded deep trees, with and without redundant parentheses",
+      "Every nominally well-typed tree with <=2/3 operator nodes and seeded deep trees at all eleven expression positions are compiled by the real compiler in monitored workers (hangs are caught by step hooks); the emitted expression is read with the target dialect's precedence and must have the PQL tree's value on every row of the product of small column domains including NULLs. Parenthesised variants must compile whenever the bare form does.",
+      "Trusts sqlmini (lexer, parser, evaluator), pqlref.Eval and the shared value primitives of package val; opaque functions are modelled as injective hashes; SQL precedence is ClickHouse's.",
+      "DESIGN.md section 5, C01")
